@@ -31,6 +31,9 @@ type BEConfig struct {
 	// the real allocator are used: 0 (off), 1 (always exceeded), MaxUint64 (never exceeded).
 	HeapLimit uint64 `json:"heap_limit,omitempty"`
 	SysLimit  uint64 `json:"sys_limit,omitempty"`
+	// LibDefaults: DeleteExpiredAfter and DeleteExpiredJobInterval are left zero, the documented defaults
+	// (24h, 1h) apply.
+	LibDefaults bool `json:"lib_defaults,omitempty"`
 	// ItemsReportNs: ItemsCountReportInterval (0: far future).
 	ItemsReportNs int64 `json:"items_report_ns,omitempty"`
 }
@@ -268,6 +271,10 @@ func (r *beRun) cacheConfig() cache.Config {
 
 	if c.JanitorIntervalNs == 0 {
 		cfg.DeleteExpiredJobInterval = farFuture
+	}
+
+	if c.LibDefaults {
+		cfg.DeleteExpiredAfter, cfg.DeleteExpiredJobInterval = 0, 0
 	}
 
 	if c.EvictionNeeded != nil {
